@@ -1195,8 +1195,14 @@ func (e *Engine) execInstr(fr *Frame, ins ssa.Instruction, st *State, pc *Term) 
 		if x.Sort == StringS {
 			panic(outsideSubset("range over string"))
 		}
-		// iterator object: ghost "visited" set is abstracted; the iterator is the map id
+		// the iterator is the map id; for string-keyed maps the set of keys
+		// already handed out is a ghost (one iteration per map at a time)
 		st.vals[in] = x
+		if mt, ok := in.X.Type().Underlying().(*types.Map); ok && e.tr.sortOf(mt.Key()) == StringS {
+			vs := ArrayOf(StringS, BoolS)
+			e.declComp("X:visitedStr", ArrayOf(IntS, vs))
+			e.setComp(st, "X:visitedStr", Store(e.comp(st, "X:visitedStr"), x, ConstArr(vs, False)))
+		}
 	case *ssa.Next:
 		e.mapNext(fr, in, st, pc)
 	case *ssa.Go, *ssa.Select, *ssa.Send, *ssa.MakeChan:
@@ -1284,6 +1290,16 @@ func (e *Engine) mapNext(fr *Frame, in *ssa.Next, st *State, pc *Term) {
 	ok := Fresh("next.ok", BoolS)
 	k := Fresh("next.k", e.tr.sortOf(mt.Key()))
 	e.assume(pc, Implies(ok, And(Neq(m, IntT(0)), Select(Select(e.comp(st, has), m), k))))
+	if e.tr.sortOf(mt.Key()) == StringS {
+		// every key is handed out once; when the iteration ends all keys were
+		vs := ArrayOf(StringS, BoolS)
+		e.declComp("X:visitedStr", ArrayOf(IntS, vs))
+		seen := Select(e.comp(st, "X:visitedStr"), m)
+		e.assume(pc, Implies(ok, Not(Select(seen, k))))
+		kk := BoundVar(StringS)
+		e.assume(pc, Implies(Not(ok), Forall([]*Term{kk}, Implies(And(Neq(m, IntT(0)), Select(Select(e.comp(st, has), m), kk)), Select(seen, kk)))))
+		e.setComp(st, "X:visitedStr", Store(e.comp(st, "X:visitedStr"), m, Ite(ok, Store(seen, k, True), seen)))
+	}
 	raw := Select(Select(e.comp(st, val), m), k)
 	e.noteLoadedMapVal(st, mt, raw)
 	st.vals[in] = Tuple(ok, k, raw)
